@@ -153,6 +153,9 @@ arctan = _scalar_fn("arctan", lambda s: T.app("atan", s), lambda q: Fraction(0) 
 sin = _scalar_fn("sin", lambda s: T.app("sin", s), lambda q: Fraction(0) if q == 0 else None)
 cos = _scalar_fn("cos", lambda s: T.app("cos", s), lambda q: Fraction(1) if q == 0 else None)
 tan = _scalar_fn("tan", lambda s: T.app("tan", s), lambda q: Fraction(0) if q == 0 else None)
+arctanh = _scalar_fn("arctanh", lambda s: T.app("atanh", s), lambda q: Fraction(0) if q == 0 else None)
+sinh = _scalar_fn("sinh", lambda s: T.app("sinh", s), lambda q: Fraction(0) if q == 0 else None)
+cosh = _scalar_fn("cosh", lambda s: T.app("cosh", s), lambda q: Fraction(1) if q == 0 else None)
 tanh = _scalar_fn("tanh", lambda s: T.app("tanh", s), lambda q: Fraction(0) if q == 0 else None)
 
 
@@ -191,12 +194,30 @@ def real(x):
 
 
 def imag(x):
-    _used("np.imag (zero: value assumed analytically real)")
     if hasattr(x, "_vc_func"):
         return x._vc_func("imag")
     if _is_scalar(x):
-        return Fraction(0)
-    return zeros(_np.shape(x))
+        x = norm(x)
+        if isinstance(x, _EXACT):
+            return Fraction(0)
+        _used("np.imag of a symbolic value: uninterpreted Im atom")
+        return T.app("Im", x)
+    x = _arr(x)
+    out = _np.empty(x.shape, dtype=object)
+    for idx in _np.ndindex(x.shape):
+        out[idx] = imag(x[idx])
+    return out
+
+
+def angle(x):
+    x = norm(x)
+    if isinstance(x, _EXACT):
+        return Fraction(0) if x >= 0 else pi
+    return T.app("arg", x)
+
+
+def arctan2(y, x):
+    return norm(T.app("atan2", y, x))
 
 
 def conj(x):
@@ -355,10 +376,14 @@ class AbstractSeq:
     def __getitem__(self, i):
         if isinstance(i, slice):
             return AbstractSeq(self.first if i.start in (None, 0) else None, self.last if i.stop is None else None, self.what)
-        if i == 0 and self.first is not None:
+        if isinstance(i, Sym) and i.is_const():
+            i = int(i.const())
+        if isinstance(i, int) and i == 0 and self.first is not None:
             return self.first
-        if i == -1 and self.last is not None:
+        if isinstance(i, int) and i == -1 and self.last is not None:
             return self.last
+        if isinstance(self.first, Sym) and isinstance(self.last, Sym) and self.first.n == self.last.n:
+            return self.first      # geomspace(a, a, k)[i] = a
         raise Unsupported(f"element {i} of an abstract {self.what} sequence")
 
     def __iter__(self):
@@ -373,8 +398,11 @@ def geomspace(a, b, num=50, **k):
     num = int(num)
     a, b = norm(a), norm(b)
     out = _np.empty(num, dtype=object)
+    same = (isinstance(a, Sym) and isinstance(b, Sym) and a.n == b.n) or (isinstance(a, _EXACT) and isinstance(b, _EXACT) and a == b)
     for i in range(num):
-        if i == 0:
+        if same:
+            out[i] = a
+        elif i == 0:
             out[i] = a
         elif i == num - 1:
             out[i] = b
